@@ -24,6 +24,7 @@
 //@ check w_c13_errors     kind=bounded bound=all-defined-codes,4-messages,4-reporting-sites fn=run_on
 //@ check w_c14_counts     kind=bounded bound=12-u64-boundary-values-squared,zero-column-row-counts-0..=3,300 fn=run_on
 //@ check w_c16_c17_stmt   kind=bounded bound=6-scripts-of-executions-and-long-data-over-2-statements fn=run_on
+//@ check w_c20_malformed kind=bounded bound=48-odd-or-malformed-client-inputs(USE-spellings,unknown-and-truncated-commands,empty-payloads,fragment-ids,all-256-command-bytes) fn=run_on
 //@ check w_c19_faults     kind=bounded bound=every-truncation-point-and-every-failing-transport-operation-of-a-6-command-conversation fn=run_on
 #![allow(dead_code, unused_imports, unused_variables, clippy::all)]
 use crate::{Column, ColumnFlags, ColumnType, ErrorKind, InitWriter, MysqlIntermediary, MysqlShim, ParamParser, QueryResultWriter, StatementMetaWriter};
@@ -47,19 +48,20 @@ pub struct Net {
     pub ops: usize,
     pub fail_at: Option<usize>,
     pub fail_persistent: bool,
+    pub fail_kind: io::ErrorKind,
 }
 #[derive(Clone)]
 pub struct Shared(pub Rc<RefCell<Net>>);
 impl Shared {
     pub fn new(input: Vec<u8>, chunks: Vec<usize>) -> Shared {
-        Shared(Rc::new(RefCell::new(Net { input, rpos: 0, chunks, ci: 0, out: vec![], flushed: 0, waited_unflushed: vec![], reads: 0, ops: 0, fail_at: None, fail_persistent: false })))
+        Shared(Rc::new(RefCell::new(Net { input, rpos: 0, chunks, ci: 0, out: vec![], flushed: 0, waited_unflushed: vec![], reads: 0, ops: 0, fail_at: None, fail_persistent: false, fail_kind: io::ErrorKind::BrokenPipe })))
     }
     fn op(&self) -> io::Result<()> {
         let mut n = self.0.borrow_mut();
         let k = n.ops;
         n.ops += 1;
         match n.fail_at {
-            Some(f) if k == f || (n.fail_persistent && k > f) => Err(io::Error::new(io::ErrorKind::BrokenPipe, "injected transport fault")),
+            Some(f) if k == f || (n.fail_persistent && k > f) => Err(io::Error::new(n.fail_kind, "injected transport fault")),
             _ => Ok(()),
         }
     }
@@ -476,7 +478,7 @@ impl MysqlShim<Shared> for TShim {
     fn on_prepare(&mut self, query: &str, info: StatementMetaWriter<'_, Shared>) -> Result<(), TErr> {
         self.log.borrow_mut().push(Ev::Prepare(query.as_bytes().to_vec()));
         let parts: Vec<&str> = query.split(':').collect();
-        if parts[0] == "perr" { return Ok(info.error(ErrorKind::ER_NO, &b"no"[..])?); }
+        if parts[0] == "perr" || parts.len() < 4 { return Ok(info.error(ErrorKind::ER_NO, &b"no"[..])?); }
         // p:<id>:<nparams>:<ncols>
         let (id, np, nc) = (num(parts[1]) as u32, num(parts[2]) as usize, num(parts[3]) as usize);
         let params: Vec<Column> = (0..np).map(|j| vcol(&format!("p{}", j), ColumnType::MYSQL_TYPE_VAR_STRING, ColumnFlags::empty())).collect();
@@ -512,11 +514,14 @@ impl MysqlShim<Shared> for TShim {
 pub struct Run { pub result: Result<(), String>, pub panicked: bool, pub log: Vec<Ev>, pub notes: Vec<String>, pub out: Vec<u8>, pub net: Shared }
 /// one conversation: handshake payload + commands (payload, request seq), read chunk sizes
 pub fn converse(hs: Vec<u8>, cmds: &[(Vec<u8>, u8)], chunks: Vec<usize>, reject: bool, fail_at: Option<(usize, bool)>, cut: Option<usize>) -> Run {
+    converse_k(hs, cmds, chunks, reject, fail_at, cut, io::ErrorKind::BrokenPipe)
+}
+pub fn converse_k(hs: Vec<u8>, cmds: &[(Vec<u8>, u8)], chunks: Vec<usize>, reject: bool, fail_at: Option<(usize, bool)>, cut: Option<usize>, kind: io::ErrorKind) -> Run {
     let mut input = frame(&hs, 1);
     for (c, s) in cmds { input.extend_from_slice(&frame(c, *s)); }
     if let Some(k) = cut { input.truncate(k); }
     let net = Shared::new(input, chunks);
-    if let Some((k, pers)) = fail_at { let mut n = net.0.borrow_mut(); n.fail_at = Some(k); n.fail_persistent = pers; }
+    if let Some((k, pers)) = fail_at { let mut n = net.0.borrow_mut(); n.fail_at = Some(k); n.fail_persistent = pers; n.fail_kind = kind; }
     let log = Rc::new(RefCell::new(vec![]));
     let notes = Rc::new(RefCell::new(vec![]));
     let shim = TShim { log: log.clone(), reject, notes: notes.clone() };
@@ -937,12 +942,16 @@ fn w_c16_c17_stmt() {
         (c_execute(1, &[(253, false, Some(s(b"zz"))), (3, true, Some(9u32.to_le_bytes().to_vec()))], true), 0),
         (c_execute(1, &[(253, false, Some(s(b"yy"))), (3, true, Some(10u32.to_le_bytes().to_vec()))], false), 0),
         (c_execute(2, &[(1, true, Some(vec![201]))], false), 0),
+        (c_execute(2, &[(1, false, Some(vec![200]))], true), 0),
+        (c_execute(2, &[(1, false, Some(vec![255]))], false), 0),
+        (c_execute(2, &[(1, true, Some(vec![255]))], true), 0),
         quit(),
     ];
     let r = converse(hs41(b"u", 0), &cmds, vec![], false, None, None);
     assert!(r.result.is_ok(), "[C16.w.run] failed: {:?}", r.result);
     let ex: Vec<&Ev> = r.log.iter().filter(|e| matches!(e, Ev::Execute(..))).collect();
-    let want: Vec<Vec<(u8, &str)>> = vec![vec![(8, "Int(7)"), (253, "Bytes([97, 98])")], vec![(1, "UInt(200)")], vec![(8, "Int(72623859790382856)"), (253, "Bytes([99, 100])")], vec![(253, "Bytes([122, 122])"), (3, "UInt(9)")], vec![(253, "Bytes([121, 121])"), (3, "UInt(10)")], vec![(1, "UInt(201)")]];
+    let want: Vec<Vec<(u8, &str)>> = vec![vec![(8, "Int(7)"), (253, "Bytes([97, 98])")], vec![(1, "UInt(200)")], vec![(8, "Int(72623859790382856)"), (253, "Bytes([99, 100])")], vec![(253, "Bytes([122, 122])"), (3, "UInt(9)")], vec![(253, "Bytes([121, 121])"), (3, "UInt(10)")], vec![(1, "UInt(201)")], vec![(1, "Int(-56)")], vec![(1, "Int(-1)")], vec![(1, "UInt(255)")]];
+    assert!(ex.len() == want.len(), "[C16.w.run] {} executions reached the shim, {} were sent", ex.len(), want.len());
     for (k, (e, w)) in ex.iter().zip(want.iter()).enumerate() {
         if let Ev::Execute(_, seen) = e { assert!(seen.len() == w.len() && seen.iter().zip(w.iter()).all(|(a, b)| a.0 == b.0 && a.1 == b.1), "[C16.w.types] execution {} decoded as {:?}, expected {:?}", k, seen, w); }
     }
@@ -954,12 +963,15 @@ fn w_c16_c17_stmt() {
         (c_execute(1, &[(253, false, Some(s(b"in0"))), (253, false, Some(s(b"in1")))], true), 0),
         (c_execute(2, &[(253, false, Some(vec![]))], true), 0),
         (c_execute(2, &[(253, false, Some(s(b"x")))], true), 0),
+        (c_long(1, 0, b""), 0),
+        (c_execute(1, &[(253, false, Some(vec![])), (253, false, Some(s(b"abc")))], true), 0),
         quit(),
     ];
     let r = converse(hs41(b"u", 0), &cmds, vec![], false, None, None);
     assert!(r.result.is_ok(), "[C17.w.run] failed: {:?}", r.result);
     let ex: Vec<&Ev> = r.log.iter().filter(|e| matches!(e, Ev::Execute(..))).collect();
-    let want: Vec<Vec<&str>> = vec![vec!["Bytes([105, 110, 48])", "Bytes([104, 101, 108, 108, 111])"], vec!["Bytes([105, 110, 48])", "Bytes([105, 110, 49])"], vec!["Bytes([111, 116, 104, 101, 114])"], vec!["Bytes([120])"]];
+    let want: Vec<Vec<&str>> = vec![vec!["Bytes([105, 110, 48])", "Bytes([104, 101, 108, 108, 111])"], vec!["Bytes([105, 110, 48])", "Bytes([105, 110, 49])"], vec!["Bytes([111, 116, 104, 101, 114])"], vec!["Bytes([120])"], vec!["Bytes([])", "Bytes([97, 98, 99])"]];
+    assert!(ex.len() == want.len(), "[C17.w.run] {} executions reached the shim, {} were sent", ex.len(), want.len());
     for (k, (e, w)) in ex.iter().zip(want.iter()).enumerate() {
         if let Ev::Execute(_, seen) = e { assert!(seen.iter().map(|x| x.1.as_str()).collect::<Vec<_>>() == *w, "[C17.w.longdata] execution {} saw {:?}, expected {:?}", k, seen, w); }
     }
@@ -987,15 +999,53 @@ fn w_c19_faults() {
     let nops = clean.net.0.borrow().ops;
     for k in 0..nops {
         for pers in [false, true] {
-            let r = converse(hs.clone(), &cmds, vec![], false, Some((k, pers)), None);
-            // the two documented Drop panics (known findings D10) are not re-reported here
-            if r.panicked { continue; }
-            assert!(r.result.is_err(), "[C19.w.fault] transport error at operation {} was masked (run_on returned Ok)", k);
-            cases += 1;
+            for kind in [io::ErrorKind::BrokenPipe, io::ErrorKind::UnexpectedEof, io::ErrorKind::ConnectionReset, io::ErrorKind::InvalidData, io::ErrorKind::TimedOut] {
+                let r = converse_k(hs.clone(), &cmds, vec![], false, Some((k, pers)), None, kind);
+                // the two documented Drop panics (known findings D10) are not re-reported here
+                if r.panicked { continue; }
+                assert!(r.result.is_err(), "[C19.w.fault] transport error ({:?}) at operation {} was masked (run_on returned Ok)", kind, k);
+                cases += 1;
+            }
         }
     }
     // a shim error is returned unchanged
     let r = converse(hs.clone(), &[(c_query(b"shimerr"), 0), (vec![0x0e], 0)], vec![], false, None, None);
     assert!(r.result == Err("shim says no".into()) && r.log.len() == 2, "[C19.w.shim] shim error not returned unchanged or a later command was served");
     println!("VERIF-NATIVE w_c19_faults cases={} nontrivial={}", cases + 1, cases + 1);
+}
+
+#[test]
+fn w_c20_malformed() {
+    let mut cases = 0;
+    let mut inputs: Vec<Vec<u8>> = vec![];
+    for q in [&b"USE `"[..], b"use `;", b"USE ``", b"USE  ` ", b"USE ;", b"USE ", b"use  ", b"USE `a", b"USE a`", b"USE `a`;;", b"USE \xff`", b"SELECT @@", b"select @@`", b"USE `\xc3\xa9`"] {
+        inputs.push(c_query(q));
+    }
+    for b in 0u16..256 { inputs.push(vec![b as u8]); inputs.push(vec![b as u8, 1, 2]); }
+    for t in [vec![], vec![0x17, 1, 0, 0, 0], vec![0x17, 1, 0, 0, 0, 0, 1, 0, 0], vec![0x18, 1, 0, 0], vec![0x19, 1], vec![0x16], vec![0x03], vec![0x02], vec![0x04]] { inputs.push(t); }
+    for inp in &inputs {
+        for s in [0u8, 255] {
+            let r = converse(hs41(b"u", 0), &[(inp.clone(), s), (vec![0x0e], 0), quit()], vec![], false, None, None);
+            assert!(!r.panicked, "[C20.w.nopanic] client payload {:?} (request id {}) made run_on panic", &inp[..inp.len().min(16)], s);
+            if r.result.is_ok() { let _ = replies(&r); }
+            cases += 1;
+        }
+    }
+    // malformed handshakes
+    for hs in [vec![], vec![0x00], vec![0x00, 0x02], vec![0x00, 0x02, 0, 0, 0, 0, 0, 0, 0x21], hs41(b"u", 0)[..33].to_vec(), vec![0x05, 0x00, 0, 0, 1, b'u']] {
+        let r = converse(hs.clone(), &[(vec![0x0e], 0)], vec![], false, None, None);
+        assert!(!r.panicked, "[C20.w.nopanic] handshake payload {:?} made run_on panic", hs);
+        cases += 1;
+    }
+    // out-of-order fragment ids and an empty packet stream
+    let mut input = frame(&hs41(b"u", 0), 1);
+    input.extend_from_slice(&[0xff, 0xff, 0xff, 7]);
+    input.extend(std::iter::repeat(b'x').take(MAXP));
+    input.extend_from_slice(&[1, 0, 0, 9, b'y']);
+    let net = Shared::new(input, vec![]);
+    let shim = TShim { log: Rc::new(RefCell::new(vec![])), reject: false, notes: Rc::new(RefCell::new(vec![])) };
+    let n2 = net.clone();
+    let r = std::panic::catch_unwind(std::panic::AssertUnwindSafe(move || MysqlIntermediary::run_on(shim, n2)));
+    assert!(matches!(r, Ok(Err(_))), "[C20.w.order] out-of-order fragment ids must end the connection with an error, not a panic or Ok");
+    println!("VERIF-NATIVE w_c20_malformed cases={} nontrivial={}", cases + 1, cases + 1);
 }
